@@ -28,6 +28,7 @@ var (
 	c19SigOK      []bool // verdict of the log-signature check, per call (candidate first, then stored)
 	c19SigCalls   int
 	c19SigSeen    []ct.SignedTreeHead
+	c19SigKeys    []crypto.PublicKey
 	c19ConsOK     bool
 	c19ConsCalls  int
 	c19Cons       struct {
@@ -72,6 +73,7 @@ func c19VerifySTH(sv ct.SignatureVerifier, sth ct.SignedTreeHead) error {
 	i := c19SigCalls
 	c19SigCalls++
 	c19SigSeen = append(c19SigSeen, sth)
+	c19SigKeys = append(c19SigKeys, sv.PubKey)
 	if i < len(c19SigOK) && c19SigOK[i] {
 		return nil
 	}
@@ -96,6 +98,7 @@ func c19CreateSignature(k crypto.PrivateKey, h tls.HashAlgorithm, data []byte) (
 }
 
 const c19LogID = "AAECAwQFBgcICQoLDA0ODxAREhMUFRYXGBkaGxwdHh8=" // base64 of bytes 0..31
+const c19OtherLogID = "/wECAwQFBgcICQoLDA0ODxAREhMUFRYXGBkaGxwdHh8=" // another configured log: 0xff, 1..31
 
 func c19STH(name string, idKind int) *ct.SignedTreeHead {
 	s := &ct.SignedTreeHead{Version: ct.V1, TreeSize: vU64(name + ".size"), Timestamp: vU64(name + ".ts")}
@@ -106,7 +109,13 @@ func c19STH(name string, idKind int) *ct.SignedTreeHead {
 			s.LogID[i] = byte(i)
 		}
 	case 2:
-		s.LogID[0] = 0xff // some other log
+		// the other log this witness also follows
+		for i := range s.LogID {
+			s.LogID[i] = byte(i)
+		}
+		s.LogID[0] = 0xff
+	case 3:
+		s.LogID[0] = 0x77 // a log nobody knows
 	}
 	return s
 }
@@ -118,11 +127,13 @@ type c19Key struct{ id int }
 //verif:opt maxpaths=20000 reach=tofu,advanced,refused-stale,refused-inconsistent,same
 func Harness_C19_update() {
 	sk := &c19Key{7}
-	w := &Witness{db: &sql.DB{}, sk: sk, Logs: map[string]ct.SignatureVerifier{c19LogID: {}}}
-	c19Writes, c19SigCalls, c19SigSeen, c19ConsCalls, c19Signs = nil, 0, nil, 0, 0
+	logKey, otherKey := &c19Key{1}, &c19Key{2}
+	w := &Witness{db: &sql.DB{}, sk: sk, Logs: map[string]ct.SignatureVerifier{c19LogID: {PubKey: logKey}, c19OtherLogID: {PubKey: otherKey}}}
+	c19Writes, c19SigCalls, c19SigSeen, c19SigKeys, c19ConsCalls, c19Signs = nil, 0, nil, nil, 0, 0
 	c19DBFails = vChoice("db-fails", 2) == 1
 	unknownLog := vChoice("unknown-log", 2) == 1
-	next := c19STH("next", vChoice("next-logid", 3))
+	nextIDKind := vChoice("next-logid", 4)
+	next := c19STH("next", nextIDKind)
 	nextRaw := vJSONEncode(next)
 	if vChoice("next-garbled", 2) == 1 {
 		nextRaw = []byte("{not json")
@@ -151,7 +162,8 @@ func Harness_C19_update() {
 		vAssert(bytes.Equal(c19Writes[0], nextRaw), "only the candidate is ever stored")
 		vAssert(!unknownLog && c19SigCalls >= 1 && c19SigOK[0], "stored only with a valid signature of the configured log")
 		vAssert(c19SigSeen[0].TreeSize == next.TreeSize && c19SigSeen[0].SHA256RootHash == next.SHA256RootHash && c19SigSeen[0].Timestamp == next.Timestamp, "the signature check covered the candidate's own fields")
-		vAssert(next.LogID != (ct.SHA256Hash{0xff}), "never for a mismatching log ID")
+		vAssert(nextIDKind <= 1, "never for an STH that names another log")
+		vAssert(c19SigKeys[0] == crypto.PublicKey(logKey), "the signature was checked under the key of the log the update is addressed to")
 		if hasPrev {
 			vAssert(next.TreeSize > prev.TreeSize, "the held STH never shrinks and is not replaced at equal size")
 			vAssert(c19ConsCalls == 1 && c19ConsOK, "replaced only when the consistency proof was accepted")
